@@ -105,7 +105,8 @@ type env struct {
 	pcallFn   *lua.LFunction
 	xpcallFn  *lua.LFunction
 	wrapped   map[*lua.LState]bool
-	noInherit int // coroutines created while the creator had a context but which got none
+	worker    *lua.LState // mode "thread": the Go-created thread that carries the context
+	noInherit int         // coroutines created while the creator had a context but which got none
 }
 
 const stdReason = "context canceled"
@@ -116,6 +117,13 @@ func newEnv(withCtx bool, k int, customReason string) *env {
 }
 
 func newEnvX(withCtx bool, k int, customReason string, removeCtx bool) *env {
+	return newEnvM(withCtx, k, customReason, removeCtx, "")
+}
+
+// newEnvM: mode "thread" leaves the main state WITHOUT a context and attaches the context to a
+// worker thread made by L.NewThread (a per-request context on a Go-created thread); the script is
+// then run on that worker through L.Resume.
+func newEnvM(withCtx bool, k int, customReason string, removeCtx bool, mode string) *env {
 	e := &env{wrapped: map[*lua.LState]bool{}}
 	L := lua.NewState()
 	e.L = L
@@ -151,7 +159,20 @@ func newEnvX(withCtx bool, k int, customReason string, removeCtx bool) *env {
 		if customReason != "" {
 			e.root.reason = reasonErr(customReason)
 		}
-		L.SetContext(e.root)
+		if mode != "thread" {
+			L.SetContext(e.root)
+		}
+	}
+	if mode == "thread" {
+		// the main state has run something (G.MainThread is set) and has no context
+		if err := L.DoString(`local warm = 1`); err != nil {
+			panic(err)
+		}
+		e.worker, _ = L.NewThread()
+		if withCtx {
+			e.root.th = e.worker
+			e.worker.SetContext(e.root)
+		}
 	}
 	if withCtx && removeCtx {
 		// the context is detached again and then cancelled: the state must behave like one that never had it
@@ -305,14 +326,17 @@ func (e *env) runScript(src, mode string) (err error, exited bool) {
 			} else {
 				err = e.L.CallByParam(lua.P{Fn: fn, NRet: lua.MultRet, Protect: true})
 			}
-		case "resume":
+		case "resume", "thread":
 			fn, lerr := e.L.LoadString(src)
 			if lerr != nil {
 				err = lerr
 				break
 			}
-			th, _ := e.L.NewThread()
-			e.adopt(e.L, th, false)
+			th := e.worker
+			if mode == "resume" {
+				th, _ = e.L.NewThread()
+				e.adopt(e.L, th, false)
+			}
 			for i := 0; ; i++ {
 				st, rerr, _ := e.L.Resume(th, fn, lua.LNumber(i))
 				if st == lua.ResumeError {
